@@ -47,7 +47,11 @@ def aclSubs : List Spec :=
     customSpec "CAT" .any [] (CB.plain (optStr (s2b "AclCat"))),
     customSpec "GENPASS" .any [] (CB.plain aclGenpass),
     customSpec "DRYRUN" (.atLeast 2) (wrongArgs "acl|dryrun") CB.aclDryrun,
-    customSpec "LOG" (.between 0 1) (wrongArgs "acl|log") CB.aclLog ]
+    customSpec "LOG" (.between 0 1) (wrongArgs "acl|log") CB.aclLog,
+    -- stubs for unimplemented ACL sub-commands (both parsers)
+    customSpec "HELP" .any [] (CB.plain (fun _ => .ok ⟨s2b "Unknown", [.s (s2b "ACL HELP")]⟩)),
+    customSpec "LOAD" .any [] (CB.plain (fun _ => .ok ⟨s2b "Unknown", [.s (s2b "ACL LOAD")]⟩)),
+    customSpec "SAVE" .any [] (CB.plain (fun _ => .ok ⟨s2b "Unknown", [.s (s2b "ACL SAVE")]⟩)) ]
 
 def scriptSubs : List Spec :=
   [ fixed "LOAD" "ScriptLoad" (s2b "SCRIPT LOAD requires 1 argument") [aStr],
@@ -189,16 +193,17 @@ def table : List Entry :=
 /-- `Command::from_resp` on an array of bulk strings -/
 def parseCmd : List Bytes → Res := parseWith table
 
-/-! ## what `from_resp_zero_copy` does differently (findings of C16) -/
+/-! ## what `from_resp_zero_copy` does differently
+
+  Both lists are empty since the fixes that aligned the LPUSH/RPUSH/SADD arity texts and copied the
+  ACL HELP/LOAD/SAVE stubs into `from_resp`; the shape is kept so that a future divergence of the
+  two copies is recorded here (and refutes `parsers_agree` again). -/
 
 /-- arity error texts that differ in the zero-copy parser -/
-def zcArityErr : List (Bytes × Bytes) :=
-  [ (s2b "LPUSH", s2b "LPUSH requires key and values"),
-    (s2b "RPUSH", s2b "RPUSH requires key and values"),
-    (s2b "SADD", s2b "SADD requires key and members") ]
+def zcArityErr : List (Bytes × Bytes) := []
 
-/-- ACL sub-commands only the zero-copy parser knows (answered `Unknown("ACL <sub>")`) -/
-def zcAclStubs : List Bytes := [s2b "HELP", s2b "LOAD", s2b "SAVE"]
+/-- ACL sub-commands only the zero-copy parser knows -/
+def zcAclStubs : List Bytes := []
 
 /-- `Command::from_resp_zero_copy` expressed as the differences to `parseCmd` -/
 def parseCmdZc (frame : List Bytes) : Res :=
@@ -258,7 +263,7 @@ def luaTable : List Entry :=
     .cmd (luaKey "ZCARD" "ZCard"),
     .cmd (fixed "ZCOUNT" "ZCount" (req "ZCOUNT" 3) [aStr, aStr, aStr]),
     .cmd (customSpec "ZRANGEBYSCORE" (.atLeast 3) (reqAtLeast "ZRANGEBYSCORE" 3)
-            (CB.zrangebyscore (aIntE .luaLimitOffset) { kind := .usz, onErr := some .luaLimitCount }
+            (CB.zrangebyscore (aIntE .luaLimitOffset) (aIntE .luaLimitCount)
               .luaLimitMissing .unknownZrbs)) ]
 
 /-- `parse_lua_command_bytes`: a name the translator does not list is an error -/
